@@ -112,12 +112,14 @@ CHECKS.update({
 
 CHECKS.update({
     "C02": dict(
-        technique="static analysis: type-directed trace coverage (every branch of the tracer is a shape test), capture/restore re-rooting symmetry, who-may-write table for the register file, and guardflow - a forward may-analysis of guard protection (DNF protector sets) with backward liveness over MIR, interprocedural may-collect sets",
+        technique="static analysis: type-directed trace coverage (every branch of the tracer is a shape test), capture/restore re-rooting symmetry, who-may-write table for the register file, and guardflow - a forward may-analysis of guard protection (DNF protector sets) with backward liveness over MIR, interprocedural may-collect sets, seeded with fresh values and with values moved out of mutably borrowed heap state (detaching-function summaries)",
         text="Decides three rooting clauses for every function: Traceable::trace visits every Gc-bearing field path reachable from "
              "JsObject (71 obligations; dead types and one side-conditioned exemption aside) and never conditions a visit on plain data; only set_reg and the frame swaps write "
              "the register file; and no FRESH value (from a callee-returned Guarded or a local-guard allocation) is without a "
-             "live guard at a call that may collect while still in use. The ten guardflow hazards of the pinned tree were "
-             "reproduced as wrong results and repaired (fix: commit). Hazards needing a callback to unlink a heap-rooted object "
+             "live guard at a call that may collect while still in use; the same holds for every Gc-bearing value DETACHED from heap "
+             "state (mem::take / Option::take / pop / remove / drain applied behind a RefMut, or a local function that returns such a value). "
+             "The ten guardflow hazards and the four detached-value hazards of the pinned tree (promise handlers, Promise.all results, splice) were "
+             "reproduced as wrong results and repaired (fix: commits). Hazards needing a callback to unlink a heap-rooted object "
              "are not decided.",
         ref="4/C02"),
 })
